@@ -23,7 +23,8 @@ from .. import tlc
 from ..cases import check_only
 from ..lattice import octahedral_group
 from ..runs import batch_validate
-from .c05 import make_sub, kinematics, ints, find_scale, oct_quats, OffLattice, TooBig, Sub
+from .c05 import make_sub, kinematics, ints, find_scale, oct_quats, OffLattice, TooBig, Sub, GEN_QUATS, GEN_CANDS, sample_generic
+from ..lattice import quat_to_matrix
 
 CANDS = sorted(2 ** a * 3 ** b for a in range(13) for b in range(5))
 SYSTEM_METHODS = ["g_N", "g_N_q", "W_N", "g_N_dot", "g_N_ddot", "xi_N", "xi_N_q", "chi_N", "g_N_dot_u", "Wla_N_q", "gamma_F", "gamma_F_dot",
@@ -87,6 +88,13 @@ def build_plane(ctx, rng, plane_kind, sub_kind, quats, friction):
     if plane_kind == "origin":
         frame = system.origin
         tev = 0.0
+    elif plane_kind == "tilted":      # translating frame whose constant basis is a rational rotation that is not axis-aligned
+        from cardillo.discrete import Frame
+        a, b, c_ = iv(), iv(), iv(-1, 1)
+        A = quat_to_matrix(GEN_QUATS[rng.randrange(len(GEN_QUATS))]) @ octahedral_group()[rng.randrange(24)].astype(float)
+        frame = Frame(r_OP=lambda t: a + b * t + c_ * t * t, r_OP_t=lambda t: b + 2 * c_ * t, r_OP_tt=lambda t: 2 * c_, A_IB=A)
+        tev = float(rng.choice([0, 1, 2]))
+        system.add(frame)
     else:
         pl = make_sub("tframe", rng, quats)
         frame = pl.obj
@@ -105,25 +113,36 @@ def build_plane(ctx, rng, plane_kind, sub_kind, quats, friction):
     return system, c, frame, sub, rho, al, B, max(tev, sub.t_eval)
 
 
-def plane_record(ctx, rid, rng, c, frame, sub, rho, al, B, t, friction, where):
-    q, u, ud = sub.sample(rng)
+def plane_record(ctx, rid, rng, c, frame, sub, rho, al, B, t, friction, where, generic=False):
+    """one Sphere2Plane evaluation as a record of integers.  The plane basis is F / s, lengths (and translational velocities, accelerations) are
+    multiples of 1 / S, every derivative direction carries a factor of its own: gap-level quantities then carry s S, friction-level quantities
+    s^2 S (times the direction factors); on axis-aligned planes with bodies at octahedral orientations all factors are 1."""
+    q, u, ud = sample_generic(sub, rng) if generic else sub.sample(rng)
     K = kin2(sub.obj, t, q, u, ud, sub.xi, B)
     w = dict(where, t=t, q=q.tolist(), u=u.tolist(), u_dot=ud.tolist(), radius=rho, anisotropy=al, B_r_CP=B.tolist())
     I = lambda x, what, sc=1.0: ints(ctx, x, what, w, sc)
-    rec = dict(id=rid, kind="P", friction=bool(friction), p=dict(F=I(frame.A_IB(t), "plane basis"), rho=int(rho), al=[int(a) for a in al]))
-    rec["X"] = dict(rP=I(K["r"], "r_OP"), rQ=I(frame.r_OP(t), "r_OQ"))
-    rec["U"] = dict(vP=I(K["v"], "v_P"), vQ=I(frame.v_P(t), "v_Q"), O=I(K["O"], "Omega"))
-    rec["A"] = dict(aP=I(K["a"], "a_P"), aQ=I(frame.a_P(t), "a_Q"), Y=I(K["Y"], "Psi"))
+    F = np.asarray(frame.A_IB(t), dtype=float)
+    rQ, vQ, aQ = np.asarray(frame.r_OP(t), dtype=float), np.asarray(frame.v_P(t), dtype=float), np.asarray(frame.a_P(t), dtype=float)
+    s = find_scale([F], GEN_CANDS)
+    S = find_scale([K["r"], K["v"], K["a"], rQ, vQ, aQ], GEN_CANDS)
+    if s is None or S is None:
+        raise OffLattice(f"plane basis / contact point kinematics are not rational with small denominators at {w}")
+    cN, cF = float(s * S), float(s * s * S)
+    rec = dict(id=rid, kind="P", friction=bool(friction), p=dict(F=I(F, "plane basis", s), rho=int(rho), al=[int(a) for a in al], s=int(s), S=int(S)))
+    rec["X"] = dict(rP=I(K["r"], "r_OP", S), rQ=I(rQ, "r_OQ", S))
+    rec["U"] = dict(vP=I(K["v"], "v_P", S), vQ=I(vQ, "v_Q", S), O=I(K["O"], "Omega"))
+    rec["A"] = dict(aP=I(K["a"], "a_P", S), aQ=I(aQ, "a_Q", S), Y=I(K["Y"], "Psi"))
     laN = rng.choice([1, 2, -1]); laF = [rng.choice([1, -2, 3]), rng.choice([2, -1])]
     rec["laN"] = laN; rec["laF"] = laF
     nq, nu = len(q), len(u)
-    sc1 = lambda x: I(np.atleast_1d(x).ravel(), "scalar")[0]
-    rec["gN"] = sc1(c.g_N(t, q.copy())); rec["gNdot"] = sc1(c.g_N_dot(t, q.copy(), u.copy())); rec["gNddot"] = sc1(c.g_N_ddot(t, q.copy(), u.copy(), ud.copy()))
+    sc1 = lambda x, what="scalar": I(np.atleast_1d(x).ravel(), what)[0]
+    rec["gN"] = sc1(c.g_N(t, q.copy()) * cN, "g_N"); rec["gNdot"] = sc1(c.g_N_dot(t, q.copy(), u.copy()) * cN, "g_N_dot")
+    rec["gNddot"] = sc1(c.g_N_ddot(t, q.copy(), u.copy(), ud.copy()) * cN, "g_N_ddot")
     gN_q = np.asarray(c.g_N_q(t, q.copy())).reshape(1, nq); gNd_q = np.asarray(c.g_N_dot_q(t, q.copy(), u.copy())).reshape(1, nq)
     W_N = np.asarray(c.W_N(t, q.copy())).reshape(nu, 1); gNd_u = np.asarray(c.g_N_dot_u(t, q.copy())).reshape(1, nu)
     WlaN = np.asarray(c.Wla_N_q(t, q.copy(), np.array([float(laN)]))).reshape(nu, nq)
     if friction:
-        rec["gF"] = I(c.gamma_F(t, q.copy(), u.copy()), "gamma_F"); rec["gFdot"] = I(c.gamma_F_dot(t, q.copy(), u.copy(), ud.copy()), "gamma_F_dot")
+        rec["gF"] = I(c.gamma_F(t, q.copy(), u.copy()), "gamma_F", cF); rec["gFdot"] = I(c.gamma_F_dot(t, q.copy(), u.copy(), ud.copy()), "gamma_F_dot", cF)
         gF_q = np.asarray(c.gamma_F_q(t, q.copy(), u.copy())).reshape(2, nq); gFd_q = np.asarray(c.gamma_F_dot_q(t, q.copy(), u.copy(), ud.copy())).reshape(2, nq)
         W_F = np.asarray(c.W_F(t, q.copy())).reshape(nu, 2); gF_u = np.asarray(c.gamma_F_u(t, q.copy())).reshape(2, nu)
         gFd_u = np.asarray(c.gamma_F_dot_u(t, q.copy(), u.copy(), ud.copy())).reshape(2, nu)
@@ -131,28 +150,37 @@ def plane_record(ctx, rid, rng, c, frame, sub, rho, al, B, t, friction, where):
     else:
         rec["gF"] = [0, 0]; rec["gFdot"] = [0, 0]
     Z3 = [0, 0, 0]
+    ku = []
+    for j in range(nu):
+        d = K["udirs"][j]
+        sc = find_scale([S * d["v"], d["O"], S * d["a"], d["Y"]], GEN_CANDS)
+        if sc is None:
+            raise OffLattice(f"derivative directions along u[{j}] are not rational with small denominators at {w}")
+        ku.append(sc)
     kappa, qd = [], []
     for k in range(nq):
         d = K["qdirs"][k]
-        sc = find_scale([d["r"], d["v"], d["O"], d["a"], d["Y"]] + [K["dd"][j][k]["v"] for j in range(nu)] + [K["dd"][j][k]["O"] for j in range(nu)], CANDS)
+        sc = find_scale([S * d["r"], S * d["v"], d["O"], S * d["a"], d["Y"]] + [ku[j] * S * K["dd"][j][k]["v"] for j in range(nu)] + [ku[j] * K["dd"][j][k]["O"] for j in range(nu)],
+                        CANDS if not generic else GEN_CANDS)
         if sc is None:
             raise OffLattice(f"derivative directions along q[{k}] are not on the lattice at {w}")
         kappa.append(sc)
-        e = dict(dX=dict(rP=I(d["r"], "r_OP_q", sc), rQ=Z3), dU=dict(vP=I(d["v"], "v_P_q", sc), vQ=Z3, O=I(d["O"], "Omega_q", sc)),
-                 dA=dict(aP=I(d["a"], "a_P_q", sc), aQ=Z3, Y=I(d["Y"], "Psi_q", sc)),
-                 gNq=sc1(gN_q[0, k] * sc), gNdotq=sc1(gNd_q[0, k] * sc))
+        e = dict(dX=dict(rP=I(d["r"], "r_OP_q", sc * S), rQ=Z3), dU=dict(vP=I(d["v"], "v_P_q", sc * S), vQ=Z3, O=I(d["O"], "Omega_q", sc)),
+                 dA=dict(aP=I(d["a"], "a_P_q", sc * S), aQ=Z3, Y=I(d["Y"], "Psi_q", sc)),
+                 gNq=sc1(gN_q[0, k] * sc * cN, "g_N_q"), gNdotq=sc1(gNd_q[0, k] * sc * cN, "g_N_dot_q"))
         if friction:
-            e["gFq"] = I(gF_q[:, k], "gamma_F_q", sc); e["gFdotq"] = I(gFd_q[:, k], "gamma_F_dot_q", sc)
+            e["gFq"] = I(gF_q[:, k], "gamma_F_q", sc * cF); e["gFdotq"] = I(gFd_q[:, k], "gamma_F_dot_q", sc * cF)
         else:
             e["gFq"] = [0, 0]; e["gFdotq"] = [0, 0]
         qd.append(e)
     udl = []
     for j in range(nu):
         d = K["udirs"][j]
-        e = dict(dU=dict(vP=I(d["v"], "J_P"), vQ=Z3, O=I(d["O"], "J_R")), dA=dict(aP=I(d["a"], "a_P_u"), aQ=Z3, Y=I(d["Y"], "Psi_u")),
-                 wN=sc1(W_N[j, 0]), gNdotu=sc1(gNd_u[0, j]))
+        sc = ku[j]
+        e = dict(dU=dict(vP=I(d["v"], "J_P", sc * S), vQ=Z3, O=I(d["O"], "J_R", sc)), dA=dict(aP=I(d["a"], "a_P_u", sc * S), aQ=Z3, Y=I(d["Y"], "Psi_u", sc)),
+                 wN=sc1(W_N[j, 0] * sc * cN, "W_N"), gNdotu=sc1(gNd_u[0, j] * sc * cN, "g_N_dot_u"))
         if friction:
-            e["wF"] = I(W_F[j, :], "W_F"); e["gFu"] = I(gF_u[:, j], "gamma_F_u"); e["gFdotu"] = I(gFd_u[:, j], "gamma_F_dot_u")
+            e["wF"] = I(W_F[j, :], "W_F", sc * cF); e["gFu"] = I(gF_u[:, j], "gamma_F_u", sc * cF); e["gFdotu"] = I(gFd_u[:, j], "gamma_F_dot_u", sc * cF)
         else:
             e["wF"] = [0, 0]; e["gFu"] = [0, 0]; e["gFdotu"] = [0, 0]
         udl.append(e)
@@ -160,8 +188,9 @@ def plane_record(ctx, rid, rng, c, frame, sub, rho, al, B, t, friction, where):
     for j in range(nu):
         for k in range(nq):
             d = K["dd"][j][k]
-            wla.append(dict(j=j + 1, k=k + 1, ddU=dict(vP=I(d["v"], "J_P_q", kappa[k]), vQ=Z3, O=I(d["O"], "J_R_q", kappa[k])),
-                            wlaN=sc1(WlaN[j, k] * kappa[k]), wlaF=sc1(WlaF[j, k] * kappa[k]) if friction else 0))
+            f = ku[j] * kappa[k]
+            wla.append(dict(j=j + 1, k=k + 1, ddU=dict(vP=I(d["v"], "J_P_q", f * S), vQ=Z3, O=I(d["O"], "J_R_q", f)),
+                            wlaN=sc1(WlaN[j, k] * f * cN, "Wla_N_q"), wlaF=sc1(WlaF[j, k] * f * cF, "Wla_F_q") if friction else 0))
     rec["qdirs"] = qd; rec["udirs"] = udl; rec["wla"] = wla
     return rec, w
 
@@ -330,7 +359,8 @@ def sphere_record(ctx, rid, rng, c, subs, rho1, rho2, fr_data, t, friction, wher
     return (rec, w, (centres, st)), None
 
 
-PLANE_PAIRS = [("origin", "rigid"), ("tframe", "rigid"), ("origin", "point"), ("tframe", "point"), ("tframe", "tframe"), ("origin", "rod1"), ("tframe", "rodm")]
+PLANE_PAIRS = [("origin", "rigid"), ("tframe", "rigid"), ("origin", "point"), ("tframe", "point"), ("tframe", "tframe"), ("origin", "rod1"), ("tframe", "rodm"),
+               ("tilted", "rigid"), ("tilted", "point"), ("tilted", "tframe"), ("tilted", "rod1"), ("tilted", "rigid*"), ("origin", "rigid*")]
 SPHERE_PAIRS = [("rigid", "rigid"), ("point", "rigid"), ("rigid", "point"), ("point", "point"), ("tframe", "rigid"), ("rigid", "tframe"), ("tframe", "point")]
 
 
@@ -364,6 +394,8 @@ def run(ctx):
             for rep in range(nrep if friction else 1):
                 where = dict(contact="Sphere2Plane", plane=plane_kind, subsystem=sub_kind, friction=friction)
                 key = f"Sphere2Plane:{plane_kind}-{sub_kind}"
+                generic = sub_kind.endswith("*")         # the body at rational orientations that are not octahedral
+                sub_kind = sub_kind.rstrip("*")
                 b = guarded(key + ":build", where, lambda: build_plane(ctx, rng, plane_kind, sub_kind, quats, friction))
                 if b is None:
                     continue
@@ -372,7 +404,7 @@ def run(ctx):
                     api += system_api(ctx, system, where, outcomes)
                 for si in range(nstates):
                     rid = len(records) + 1
-                    out = guarded(key, where, lambda: plane_record(ctx, rid, rng, c, frame, sub, rho, al, B, t, friction, where))
+                    out = guarded(key, where, lambda: plane_record(ctx, rid, rng, c, frame, sub, rho, al, B, t, friction, where, generic=generic))
                     if out is not None:
                         records.append(out[0]); wheres[rid] = out[1]; counts["P"] += 1
         for kinds in SPHERE_PAIRS:
